@@ -119,6 +119,14 @@ CLAIMED = {
             "hands over the published id, topic, queue and priority (after fix F07).",
             "json.loads/JSONEncoder text, isoformat/fromisoformat and uuid4 by assumed contracts; pydantic arguments delegated; "
             "Redis enqueue <-> details fetch not yet composed."),
+    "C03": ("deductive verification with cancellation explored at every await (yield points): _process_with_event, "
+            "_run_consumer, stop_wait_and_cancel, finish_gracefully, in-memory requeue/ack/nack/reject/consume/finish",
+            "Proof that the stop event precedes the grace period and the cancel event follows it, that a processing task "
+            "raced against cancellation ends with at least one disposition and no reject after completion (fix F03a), and "
+            "that cancelled in-memory single-effect operations leave the old or new state. Four clauses fail on the tree and "
+            "are known findings: F01b (cancelled requeue), F03d (cancelled _run_consumer drops its message), F03e "
+            "(cancel after disposition), F14a (finish returns others' messages).",
+            "Real-time bound, Redis maintenance/background consumer, Worker.run call order are not decided."),
 }
 NOT_APPLICABLE_REASON = "check not built yet (work in progress; see DESIGN.md section 5 for the planned contracts)"
 
